@@ -249,7 +249,7 @@ func (ir *ifdReader) readSubIfds(t Tag) {
 			}
 			return
 		}
-		for i := 0; i < int(t.UnitCount); i++ {
+		for i := 0; i < int(t.UnitCount) && 4*i+4 <= len(buf); i++ {
 			ir.addTagBuffer(NewTag(t.ID, tag.TypeIfd, tag.TypeIfdSize, t.ByteOrder.Uint32(buf[4*i:]), ifds.SubIfd0+ifds.IfdType(i), 0, t.ByteOrder))
 		}
 	}
@@ -266,6 +266,7 @@ func (ir *ifdReader) readMakerNotes(t Tag) {
 			buf, err := ir.fastRead(18)
 			if err != nil {
 				t.logTag(ir.logError(err)).Send()
+				return
 			}
 			if nikon.IsNikonMkNoteHeaderBytes(buf[:5]) {
 				ir.Exif.ImageType = imagetype.ImageNEF
